@@ -61,6 +61,10 @@ def _eq(a, b):
     return a == b
 
 
+# clauses mentioning these ghost functions have no native rendering (proof only)
+PROOF_ONLY = ('final_code(', 'live_under(', 'sanitized(')
+
+
 class Rec(pytypes.SimpleNamespace):
     """native stand-in for an object record (attribute access, structural equality)"""
 
@@ -256,6 +260,8 @@ def run_case(c, fn, args, params, extra_env=None):
     env_now = dict(args)
     env_now['result'] = result
     for text in c.ensures:
+        if any(w in text for w in PROOF_ONLY):
+            continue
         try:
             ok = eval_clause(text, params, env_now, env_old, extra_env)
         except Exception as e:
